@@ -387,6 +387,14 @@ impl Exec for Ex {
                 }
             }
             v.retain(|f| std::path::Path::new(&refcanon(f)).is_file());
+            // tools also list files they probed and did not find: such a name is a dependency all the same
+            // (the step stays out of date until the file exists when it next succeeds)
+            if sh.tape.chance(8) {
+                let gone: Vec<&String> = proj.sources.iter().filter(|f| *f != "gen.in" && *f != "sub.in" && !std::path::Path::new(f.as_str()).exists()).collect();
+                if !gone.is_empty() {
+                    v.push(gone[sh.tape.below(gone.len())].clone());
+                }
+            }
             Some(v)
         } else {
             None
